@@ -145,56 +145,118 @@ def dispRun (cfg : Cfg) : DispSt → List DispEv → DispSt × List Out
 
 An entry is stored under the member id that was DIALLED and removed (when `client.run` returns)
 under the id the peer ANNOUNCED in its handshake `ID` message. Member ids are numbers here; `0` is
-"no id announced". -/
+"no id announced".
+
+`DisConnectTo(id)` sends `id` on the same removal channel: the entry is deleted but the connection is
+NOT closed; its `runClient` goroutine lives on (`loose`) and sends the announced id on the removal
+channel once more when the connection ends (the peer hangs up, a read error, the 60 s idle timer) —
+a removal of an id that has no entry any more, or whose entry now belongs to a newer connection to
+the same member. `Leave()` cancels the server context: `callHandler` closes what is in the table and
+returns, nothing is handled afterwards. -/
 
 inductive ConnEv where
   /-- a request to member `x` that has no entry: dial, handshake (`hsOK`: it completes — a peer that
   hangs up, sends junk or announces the node's own id makes it fail), the peer announces id `a` -/
   | dial (x a : Nat) (hsOK : Bool)
-  /-- the connection stored under `x` ends (peer hangs up, read error, idle timeout) -/
+  /-- the newest live connection that was dialled for member `x` ends (peer hangs up, read error, idle
+  timeout), whether it still has its entry or lost it to `DisConnectTo` -/
   | hangup (x : Nat)
-  /-- a request to member `x`, whose endpoint is honest now -/
+  /-- the oldest live connection that was dialled for member `x` ends -/
+  | hangupOld (x : Nat)
+  /-- a request to member `x`, whose endpoint is honest now (it announces `x`, answers, and — like every
+  node — keeps ONE inbound connection per remote id: `receiveHandler` closes a second one) -/
   | req (x : Nat)
+  /-- `DisConnectTo(x)` for any id: connected, never connected, disconnected already -/
+  | disc (x : Nat)
+  /-- `Leave()` -/
+  | leave
   deriving DecidableEq, Repr
 
 structure ConnEntry where
   key : Nat        -- dialled id the entry is stored under
   ann : Nat        -- id the peer announced
   dead : Bool      -- its connection has ended
+  honest : Bool    -- the endpoint is the honest member `key` (a `req`), not whoever answered a `dial`
   deriving DecidableEq, Repr
 
 structure ConnSt where
   tab : List ConnEntry := []
+  /-- live connections without an entry (removed by `DisConnectTo`, or under their key by the end of
+  another connection that announced that id): their `runClient` will still report their end -/
+  loose : List ConnEntry := []
   alive : Bool := true
+  left : Bool := false
   deriving Repr
 
 def connFind (k : Nat) (t : List ConnEntry) : Option ConnEntry := t.find? (fun e => e.key == k)
 
-def connDial (cfg : Cfg) (s : ConnSt) (x a : Nat) (hsOK : Bool) : ConnSt × Out :=
+/-- `refused`: the endpoint takes the connection, finishes the handshake and closes it (an honest member
+that still has an inbound connection from this node): the entry is stored, the request fails, the
+connection's end removes the entry again -/
+def connDial (cfg : Cfg) (s : ConnSt) (x a : Nat) (hsOK honest refused : Bool) : ConnSt × Out :=
   match connFind x s.tab with
   | some e => (s, if e.dead then .err "stale" else .ok "reuse")
   | none =>
     if !hsOK then (s, .err "handshake")
     else if cfg.callIdMatch && a != x then (s, .err "mismatch")
-    else ({ s with tab := ⟨x, a, false⟩ :: s.tab }, .ok "dialled")
+    else if refused then (s, .err "dup")
+    else ({ s with tab := ⟨x, a, false, honest⟩ :: s.tab }, .ok "dialled")
 
-def connStep (cfg : Cfg) (s : ConnSt) : ConnEv → ConnSt × Out
-  | .dial x a hsOK => if !s.alive then (s, .dropped) else connDial cfg s x a hsOK
-  | .req x => if !s.alive then (s, .dropped) else connDial cfg s x x true
-  | .hangup x => if !s.alive then (s, .dropped) else
+/-- the honest member `x` still holds an inbound connection from this node: one that `DisConnectTo`
+took out of the table without closing it -/
+def connCutLoose (s : ConnSt) (x : Nat) : Bool := s.loose.any (fun e => e.key == x && e.honest)
+
+/-- the `removeCallingC` branch of `callHandler` for id `id`, whoever sent it (`runClient` of a
+connection that ended, or `DisConnectTo`): an entry found is deleted — its connection is not closed,
+so a live one goes on as `loose` —; for an id without entry the `c != nil` test skips the removal -/
+def connRemove (cfg : Cfg) (s : ConnSt) (id : Nat) : ConnSt × Out :=
+  match connFind id s.tab with
+  | some f =>
+    ({ s with tab := s.tab.filter (fun g => g.key != id), loose := if f.dead then s.loose else f :: s.loose }, .ok "removed")
+  | none =>
+    if cfg.callRemoveNil then (s, .ok "kept")
+    else ({ s with alive := false }, .panic "p2p.server.callHandler|deref|c.conn")
+
+def connMarkDead (x : Nat) : List ConnEntry → List ConnEntry :=
+  List.map (fun f => if f.key == x then ConnEntry.mk f.key f.ann true f.honest else f)
+
+/-- a live connection ends: runClient: `removeCallingC <- c.remoteID` (the announced id) -/
+def connEndTab (cfg : Cfg) (s : ConnSt) (e : ConnEntry) : ConnSt × Out :=
+  connRemove cfg { s with tab := connMarkDead e.key s.tab } e.ann
+
+def connEndLoose (cfg : Cfg) (s : ConnSt) (e : ConnEntry) : ConnSt × Out :=
+  connRemove cfg { s with loose := s.loose.erase e } e.ann
+
+/-- the NEWEST live connection dialled for `x` ends: the one holding the entry, else the youngest loose one
+(`loose` is newest first; a loose connection dialled for `x` is older than the entry under `x`) -/
+def connViaLoose (cfg : Cfg) (s : ConnSt) (x : Nat) : ConnSt × Out :=
+  match s.loose.find? (fun e => e.key == x) with
+  | none => (s, .dropped)
+  | some e => connEndLoose cfg s e
+
+def connHangup (cfg : Cfg) (s : ConnSt) (x : Nat) : ConnSt × Out :=
+  match connFind x s.tab with
+  | some e => if e.dead then connViaLoose cfg s x else connEndTab cfg s e
+  | none => connViaLoose cfg s x
+
+/-- the OLDEST live connection dialled for `x` ends -/
+def connHangupOld (cfg : Cfg) (s : ConnSt) (x : Nat) : ConnSt × Out :=
+  match s.loose.reverse.find? (fun e => e.key == x) with
+  | some e => connEndLoose cfg s e
+  | none =>
     match connFind x s.tab with
+    | some e => if e.dead then (s, .dropped) else connEndTab cfg s e
     | none => (s, .dropped)
-    | some e =>
-      if e.dead then (s, .dropped)
-      else
-        -- runClient: removeCallingC <- c.remoteID (the announced id)
-        let markDead : List ConnEntry → List ConnEntry :=
-          List.map (fun f => if f.key == x then ConnEntry.mk f.key f.ann true else f)
-        match connFind e.ann s.tab with
-        | some _ => (ConnSt.mk (markDead (s.tab.filter (fun f => f.key != e.ann))) s.alive, .ok "removed")
-        | none =>
-          if cfg.callRemoveNil then (ConnSt.mk (markDead s.tab) s.alive, .ok "kept")
-          else (ConnSt.mk s.tab false, .panic "p2p.server.callHandler|deref|c.conn")
+
+def connStep (cfg : Cfg) (s : ConnSt) (ev : ConnEv) : ConnSt × Out :=
+  if !s.alive || s.left then (s, .dropped) else
+  match ev with
+  | .dial x a hsOK => connDial cfg s x a hsOK false false
+  | .req x => connDial cfg s x x true true (connCutLoose s x)
+  | .hangup x => connHangup cfg s x
+  | .hangupOld x => connHangupOld cfg s x
+  | .disc x => connRemove cfg s x
+  | .leave => ({ s with left := true }, .ok "left")
 
 def connRun (cfg : Cfg) : ConnSt → List ConnEv → ConnSt × List Out
   | s, [] => (s, [])
@@ -202,6 +264,14 @@ def connRun (cfg : Cfg) : ConnSt → List ConnEv → ConnSt × List Out
     let (s1, o) := connStep cfg s e
     let (s2, os) := connRun cfg s1 es
     (s2, o :: os)
+
+/-- number of TCP connections the `dial` events of a history opened (every dial that reached the
+endpoint: completed, failed handshake, refused id) -/
+def connDials : List ConnEv → List Out → Nat
+  | .dial _ _ _ :: es, o :: os =>
+    (if o == .ok "dialled" || o == .err "handshake" || o == .err "mismatch" then 1 else 0) + connDials es os
+  | _ :: es, _ :: os => connDials es os
+  | _, _ => 0
 
 /-! ### 12. `messageDispatch` -/
 
